@@ -41,6 +41,7 @@ type Options struct {
 	MapRange    bool // range over the single-entry map
 	StateProbes bool // sprinkle state probes ({{.}}, isset, yield content)
 	Sites       bool // C12: probe statements are {{mark(K)}} site placeholders, only outside try; every file defines block zb
+	Builtins    bool // string built-ins, map()/slice() literals, more SafeWriters, includeIfExists, two-value lookups
 	Callbacks   bool // use the custom Ranger / Renderer values (user callbacks that can fail)
 	MultiLine   bool // actions may contain newlines (whitespace inside an action is free)
 	TargetTry   bool // place exactly one instrumented try statement (C13); probes only inside its body
@@ -54,7 +55,7 @@ func SwarmOptions(t *sim.Tape) Options {
 		Probes: true, ProbeExpr: on(2, 3),
 		Try: on(3, 4), Blocks: on(3, 4), Include: on(2, 3), Exec: on(1, 3), Extends: on(1, 2), Import: on(1, 2),
 		Range: on(4, 5), If: on(3, 4), Vars: on(3, 4), Dump: on(1, 4), Trim: on(1, 4), Comments: on(1, 4),
-		MaxStmts: t.Range(2, 6), MaxDepth: t.Range(1, 4), MapRange: on(1, 3), StateProbes: on(2, 3), MultiLine: on(1, 2), Callbacks: on(1, 2),
+		MaxStmts: t.Range(2, 6), MaxDepth: t.Range(1, 4), MapRange: on(1, 3), StateProbes: on(2, 3), MultiLine: on(1, 2), Callbacks: on(1, 2), Builtins: on(1, 2),
 	}
 }
 
@@ -224,6 +225,15 @@ func (g *G) strExpr(sc scopeInfo, depth int) string {
 			}
 		case 6:
 			return `repeat(` + g.strExpr(sc, depth+1) + `, 2)`
+		case 7:
+			if g.O.Builtins {
+				x := g.strExpr(sc, depth+1)
+				return []string{
+					`replace(` + x + `, "l", "L", 1)`, `trimSpace(" " + ` + x + ` + " ")`, `html(` + x + `)`, `url(` + x + `)`,
+					`split(` + x + `, "i")[0]`, `lower(` + x + `)`, `(hasPrefix(` + x + `, "l") ? "P" : "N")`, `(hasSuffix(` + x + `, "t") ? "S" : "N")`,
+					`map("k", ` + x + `).k`, `slice(` + x + `, "z")[0]`, `(len(` + x + `) > 2 ? "long" : "short")`,
+				}[g.T.Choose(11)]
+			}
 		}
 	}
 	return alts[g.T.Choose(len(alts))]
@@ -331,7 +341,11 @@ func (g *G) stmt(sc *scopeInfo) {
 		case 2:
 			g.act(".")
 		case 3:
-			g.act(g.strExpr(*sc, 0) + []string{" | raw", " | lower", " | upper | lower", " | repeat: 2"}[g.T.Choose(4)])
+			pipes := []string{" | raw", " | lower", " | upper | lower", " | repeat: 2"}
+			if g.O.Builtins {
+				pipes = append(pipes, " | unsafe", " | safeHtml", " | safeJs", " | html | raw", " | len", " | replace: \"l\", \"L\", 1", " | hasPrefix(\"lit\", _)")
+			}
+			g.act(g.strExpr(*sc, 0) + pipes[g.T.Choose(len(pipes))])
 		}
 		if g.O.Callbacks && g.T.Choose(6) == 5 {
 			g.act("rnd") // a Renderer: renders itself, and is a fault point
@@ -350,8 +364,23 @@ func (g *G) stmt(sc *scopeInfo) {
 		}
 	case 3:
 		v := g.newVar()
-		g.act(v + " := " + g.strExpr(*sc, 0))
-		sc.vars = append(sc.vars, v)
+		switch {
+		case g.O.Builtins && g.T.Choose(5) == 4:
+			// two-value map lookup: the second variable is a bool
+			ok := g.newVar()
+			g.act(v + ", " + ok + ` := item.M["` + []string{"mk", "absent"}[g.T.Choose(2)] + `"]`)
+			g.act(ok)
+			g.act("isset(" + v + ")")
+			v = ""
+		case g.O.Builtins && g.T.Choose(5) == 4:
+			// multi-assignment with a discard
+			g.act(v + ", _ := " + g.strExpr(*sc, 0) + ", " + g.strExpr(*sc, 1))
+		default:
+			g.act(v + " := " + g.strExpr(*sc, 0))
+		}
+		if v != "" {
+			sc.vars = append(sc.vars, v)
+		}
 	case 4:
 		v := sc.vars[g.T.Choose(len(sc.vars))]
 		g.act(v + " = " + g.strExpr(*sc, 0))
@@ -594,6 +623,18 @@ func (g *G) yieldStmt(sc scopeInfo) {
 
 func (g *G) includeStmt(sc scopeInfo) {
 	p := g.incs[g.T.Choose(len(g.incs))]
+	if g.O.Builtins && g.T.Choose(4) == 3 {
+		// includeIfExists resolves against the root; a missing target renders nothing
+		target := []string{p, p, "/zz/absent.jet"}[g.T.Choose(3)]
+		if g.T.Choose(2) == 1 {
+			g.act(fmt.Sprintf("includeIfExists(%q, %s)", target, g.ctxExpr(sc, KItem)))
+		} else {
+			g.act(fmt.Sprintf("if includeIfExists(%q, %s)", target, g.ctxExpr(sc, KItem)))
+			g.text()
+			g.act("end")
+		}
+		return
+	}
 	name := p
 	// relative spelling when the includer is in the same directory tree
 	if g.T.Choose(3) == 2 {
